@@ -217,11 +217,47 @@ class _VramRow:
 def pixel_map(ctx: Ctx, py: PyProgram, rs: RustProgram) -> None:
     mod = py.module(CW_PY)
     fn = py.func(CW_PY, "HD61202Controller.get_display_buffer")
+    hmod = py.module(HD_PY)
+    hconsts: dict = {}
+    for st_ in ast.walk(hmod.tree):
+        if isinstance(st_, ast.ClassDef) and st_.name == "HD61202":
+            for a_ in st_.body:
+                if isinstance(a_, ast.Assign) and isinstance(a_.targets[0], ast.Name):
+                    try:
+                        cev = PyEval(py, hmod)
+                        cev.env = dict(hconsts)
+                        v_ = cev.eval(a_.value)
+                        if isinstance(v_, int):
+                            hconsts[a_.targets[0].id] = v_
+                    except NotConst:
+                        pass
+    # the buffer local is whatever np.zeros is bound to; the bit test is the nested helper that does not touch the buffer
+    buf_names = [t.id for st_ in fn.body if isinstance(st_, ast.Assign) and "np.zeros" in unparse(st_.value) for t in st_.targets if isinstance(t, ast.Name)]
+    ctx.need(len(buf_names) == 1, "get_display_buffer: buffer allocation (np.zeros) not found")
+    buf_name = buf_names[0]
+    nested = [st_ for st_ in fn.body if isinstance(st_, ast.FunctionDef)]
+    pix = [f_ for f_ in nested if not any(isinstance(x, ast.Name) and x.id == buf_name for x in ast.walk(f_)) and len(f_.args.args) == 2]
+    ctx.need(len(pix) == 1, "get_display_buffer: the (byte, bit) -> pixel helper was not identified")
+    pix_name = pix[0].name
+
+    def py_map(start_line: int) -> dict:
+        ev_ = PyEval(py, mod, budget=[3_000_000])
+        buf: dict = {}
+        chips_ = [Term("HD61202", (), {"vram": _Vram(i), "state": Term("State", (), {"on": True, "start_line": start_line})}) for i in (0, 1)]
+        ev_.env = {"self": Term("HD61202Controller", (), {"chips": chips_}), "HD61202": Term("HD61202", (), dict(hconsts))}
+        body_ = [st_ for st_ in fn.body if not (st_ is pix[0]) and not (isinstance(st_, ast.Assign) and "np.zeros" in unparse(st_.value)) and not isinstance(st_, ast.Return)]
+        ev_.env[buf_name] = buf
+        ev_.env[pix_name] = lambda byte, bit: ("px", byte, int(bit))
+        try:
+            ev_.exec_block(body_)
+        except NotConst as e:
+            raise AnalysisError(f"get_display_buffer is outside the abstract interpreter's fragment: {e}")
+        return buf
     ev = PyEval(py, mod, budget=[3_000_000])
     buffer: dict = {}
-    chips = [Term("HD61202", (), {"vram": _Vram(0), "state": Term("State", (), {"on": True})}),
-             Term("HD61202", (), {"vram": _Vram(1), "state": Term("State", (), {"on": True})})]
-    ev.env = {"self": Term("HD61202Controller", (), {"chips": chips})}
+    chips = [Term("HD61202", (), {"vram": _Vram(0), "state": Term("State", (), {"on": True, "start_line": 0})}),
+             Term("HD61202", (), {"vram": _Vram(1), "state": Term("State", (), {"on": True, "start_line": 0})})]
+    ev.env = {"self": Term("HD61202Controller", (), {"chips": chips}), "HD61202": Term("HD61202", (), dict(hconsts))}
 
     # abstract transfer functions: the buffer allocation and the bit test are replaced by symbolic versions
     class _NP:
@@ -229,7 +265,7 @@ def pixel_map(ctx: Ctx, py: PyProgram, rs: RustProgram) -> None:
     regions: list[tuple] = []
     body = []
     for st in fn.body:
-        if isinstance(st, ast.FunctionDef) and st.name == "pixel_on":
+        if st is pix[0]:
             continue
         if isinstance(st, ast.Assign) and "np.zeros" in unparse(st.value):
             shape = ast.literal_eval(st.value.args[0])
@@ -238,8 +274,8 @@ def pixel_map(ctx: Ctx, py: PyProgram, rs: RustProgram) -> None:
         if isinstance(st, ast.Return):
             continue
         body.append(st)
-    ev.env["buffer"] = buffer
-    ev.env["pixel_on"] = lambda byte, bit: ("px", byte, int(bit))
+    ev.env[buf_name] = buffer
+    ev.env[pix_name] = lambda byte, bit: ("px", byte, int(bit))
     # record region calls as they are made
     try:
         ev.exec_block(body)
@@ -341,25 +377,62 @@ def pixel_map(ctx: Ctx, py: PyProgram, rs: RustProgram) -> None:
                 if r != want:
                     ctx.violation("C15.2/col-map", f"map_chip_col_to_display_col[{chip},{page},{col}]", f"chip {chip} page {page} column {col}: Rust display column {r}, stitcher says {want}", rs.file_for(LCD_RS))
     ctx.instance("C15.2/col-map", "map_chip_col_to_display_col over 2 chips x 8 pages x 64 columns vs the stitched pixel map", n, 1024)
-    # Rust copy_region row/column forms
-    cr = rs.fn(LCD_RS, "copy_region")
-    dd = rs_defs(cr.body)
-    forms = {k: expr_text(v[0]) for k, v in dd.items() if v and isinstance(v[0], dict)}
-    want_forms = {"y_display": "start_page*8+row", "page": "y_vram/8", "bit": "y_vram%8"}
+    # Rust display_buffer / copy_region interpreted with symbolic VRAM cells, for several display start lines, against the Python
+    # stitcher interpreted with the same start line: the two machines show the same VRAM bit at every one of the 7 680 pixels.
+    class _RsRow:
+        def __init__(self, chip: int, p: int):
+            self.chip, self.p = chip, p
+
+        def __getitem__(self, c: Any) -> tuple:
+            if not 0 <= int(c) < 64:
+                raise IndexError
+            return ("vram", self.chip, self.p, int(c))
+
+    class _RsVram:
+        def __init__(self, chip: int):
+            self.chip = chip
+
+        def __getitem__(self, p: Any) -> _RsRow:
+            if not 0 <= int(p) < 8:
+                raise IndexError
+            return _RsRow(self.chip, int(p))
+
+    class _PixIt(RsInterp):
+        def call_hook(self, path: str, args: list, env: dict, e: dict) -> Any:
+            if path.split("::")[-1] == "pixel_on":
+                return ("px", args[0], int(args[1]))
+            return NotImplemented
+
+        def mcall_hook(self, recv: Any, m: str, args: list, env: dict, e: dict) -> Any:
+            if m == "take":
+                return list(recv)[:args[0]]
+            if m == "get" and isinstance(recv, (list, _RsVram, _RsRow)):
+                try:
+                    return ("some", recv[args[0]])
+                except IndexError:
+                    return None
+            return NotImplemented
+    pit = _PixIt(rs, LCD_RS)
+    sites = [c for c in walk(db.body) if c.get("k") == "call" and expr_text(c["f"]) == "copy_region"]
     n = 0
-    for k_, w in want_forms.items():
-        n += 1
-        if forms.get(k_) != w:
-            ctx.violation("C15.2/rust-row-map", key_of(rs.file_for(LCD_RS), "copy_region", k_), f"copy_region computes {k_} as `{forms.get(k_)}`, expected `{w}`", cr.where)
-    n += 1
-    if forms.get("y_vram") != "(y_display+start_line)%LCD_CHIP_ROWS":
-        ctx.violation("C15.2/rust-row-map", key_of(rs.file_for(LCD_RS), "copy_region", "y_vram"), f"copy_region computes y_vram as `{forms.get('y_vram')}`", cr.where)
-    stores = [a for a in walk(cr.body) if a.get("k") == "assign" and a["l"].get("k") == "index" and expr_text(a["l"]["e"]) == "row_buf"]
-    for a in stores:
-        n += 1
-        if expr_text(a["l"]["i"]) != "dest_start_col+dest_offset" or "pixel_on(*byte,bit)" != expr_text(a["r"]):
-            ctx.violation("C15.2/rust-row-map", key_of(rs.file_for(LCD_RS), "copy_region", "store"), f"copy_region stores `{expr_text(a)}`", cr.where)
-    ctx.instance("C15.2/rust-row-map", "copy_region row/bit/destination forms", n, 6)
+    for sl in (0, 8, 37):
+        rbuf = [dict() for _ in range(32)]
+        for c in sites:
+            a = c["args"]
+            chipdef = d.get(expr_text(a[1]), [None])[0]
+            chip = int(expr_text(chipdef).split("[")[1].split("]")[0])
+            try:
+                pit.call("copy_region", [rbuf, {"state": {"start_line": sl}, "vram": _RsVram(chip)}, evr.eval(a[2]), range(evr.eval(a[3]["lo"]), evr.eval(a[3]["hi"])), evr.eval(a[4]), evr.eval(a[5])])
+            except Exception as e:  # noqa: BLE001
+                raise AnalysisError(f"copy_region (Rust) left the evaluable fragment: {type(e).__name__}: {e}")
+        pbuf = py_map(sl)
+        diff = [(r, c_) for r in range(32) for c_ in range(240) if rbuf[r].get(c_) != pbuf.get((r, c_))]
+        n += 32 * 240
+        if diff:
+            r, c_ = diff[0]
+            ctx.violation("C15.2/display-parity", key_of(CW_PY, "HD61202Controller.get_display_buffer", f"differs from LcdController::display_buffer at start line {sl}" if sl else "differs from LcdController::display_buffer"),
+                          f"with display start line {sl}, {len(diff)} of 7680 pixels show a different VRAM bit in the two machines; e.g. pixel (row {r}, col {c_}): Python {pbuf.get((r, c_))}, Rust {rbuf[r].get(c_)}", f"{CW_PY} vs {rs.file_for(LCD_RS)}")
+    ctx.instance("C15.2/display-parity", "display pixels x start lines {0, 8, 37}: Python stitcher == Rust display_buffer (both interpreted with symbolic VRAM)", n, 23040)
 
 
 # ---------------------------------------------------------------------------
